@@ -137,7 +137,7 @@ MIN_EVENTS = {"pdm-entry-judged": (100000, 5000000), "ndm-entry-judged": (100000
               "summary-judged": (20000, 200000), "nj-judged": (2000, 20000), "upgma-judged": (500, 5000),
               "csv-entry-judged": (15000, 150000), "hook:Tree.mrca:return": (50000, 500000),
               "hook:PhylogeneticDistanceMatrix.compile_from_tree:return": (2000, 20000),
-              "matrix-recompiled-from-another-tree": (100, 2000),
+              "matrix-recompiled-from-another-tree": (100, 2000), "recompiled-matrix-requeried": (100, 2000),
               # identity / option / route / history dimensions (each one decides a clause of its own)
               "pdm-identity-judged": (8000, 28000), "accessor-judged": (17000, 55000),
               "accessor-option-judged": (200000, 600000), "ndm-accessor-judged": (6500, 14000),
@@ -1420,13 +1420,27 @@ def run_tree(ctx, mon, spec, rooted, rng, nscfg, exhaustive, parts, label):
                 # first tree may survive (the hook judges the mapped taxa and every entry against the new tree)
                 keep = rng.sample(labels, rng.randint(2, n - 1))
                 t2 = bridge.build_tree(ref.induced(spec, keep, suppress=rng.random() < 0.5), tree.taxon_namespace, rooted)
-                try:
-                    pdm.compile_from_tree(t2)
-                    ctx.ev("matrix-recompiled-from-another-tree")
-                except core.CaseTimeout:
-                    raise
-                except Exception:
-                    pass      # reported by the hook
+                order = [(t2, "shrunk")]
+                if rng.random() < 0.5:
+                    order.append((tree, "grown-back"))        # ... and back to the larger leaf set
+                for tgt, how in order:
+                    try:
+                        pdm.compile_from_tree(tgt)
+                        ctx.ev("matrix-recompiled-from-another-tree")
+                    except core.CaseTimeout:
+                        raise
+                    except Exception:
+                        break     # reported by the hook
+                    # the object was queried (accessors, summaries, clusterings) under the previous compilation:
+                    # whatever those calls remembered must not answer for the new one
+                    v2 = View(tgt)
+                    if len(v2.labels) >= 2:
+                        d2 = dict(det, recompiled=how, recompiled_from=v2.labels)
+                        judge_accessors(ctx, pdm, v2, rng, d2, 2)
+                        judge_summaries(ctx, pdm, v2.taxon, lambda w, v2=v2: oracle_tables(v2, w), v2.factor, v2.labels, rng,
+                                        v2.exact, v2.vscale, d2, "pdm|recompiled-object",
+                                        [(True, False), (False, False), (True, True), (False, True)], 1)
+                        ctx.ev("recompiled-matrix-requeried")
     # ---- 2. node distance matrix (both constructors)
     if "ndm" in parts:
         try:
